@@ -409,6 +409,16 @@ func (c04) checkAST(c *core.C, cs c04Case) {
 	} else if d := diffDep(&u, cs.Dep); d != "" {
 		c.Failf("UnmarshalControl(%q): %s", cs.Text, d)
 	}
+	// ... and into a variable that already holds another field (a struct reused across paragraphs)
+	var re dependency.Dependency
+	if re.UnmarshalControl("old-a (>= 1) [amd64] | old-b, old-c") == nil {
+		if err := re.UnmarshalControl(cs.Text); err != nil {
+			c.Failf("UnmarshalControl(%q) into a variable that held another field failed: %v", cs.Text, err)
+		} else if d := diffDep(&re, cs.Dep); d != "" {
+			c.Failf("UnmarshalControl(%q) into a variable that held another field: %s", cs.Text, d)
+		}
+		c.Cover("entry:UnmarshalControl-reused-receiver")
+	}
 	nontrivial := false
 	for _, rel := range cs.Dep {
 		if len(rel) > 1 {
